@@ -134,7 +134,8 @@ def corner_ops(rng, spec, guarded):
                         "value": {"m": rng.choice([0.3, 12.5]), "u": rng.choice(["min", "hour"])}})
     for kind, param in (("countries", "average_carbon_intensity"), ("networks", "bandwidth_energy_intensity"), ("devices", "power"),
                         ("jobs", "data_transferred"), ("servers", "average_carbon_intensity")):
-        names = list(spec[kind])
+        reach = reachable_spec_names(spec)
+        names = [n_ for n_ in spec[kind] if n_ in reach]     # edits of objects outside the system are not the system's business
         for a in names[1:]:
             if param in spec[kind][a] and spec[kind][a][param] == spec[kind][names[0]].get(param):
                 v = spec[kind][a][param]
